@@ -7,8 +7,10 @@
 (*                      ... filters, WAL (no shared state; the replay parks p here) ...      *)
 (*   RcvPush(p, r)      cache.Push(tx) [cache mutex]: refused when somebody pushed it since  *)
 (*   RcvAppend(p)       txs.PushBack                                                         *)
-(*   UpdCache(B)        Update: cache.Push of the block's transactions                       *)
+(*   UpdCache(B)        Update: cache.Push of the block's transactions (FIRST: a submitter that  *)
+(*                      checks the cache from here on finds the committed transactions)      *)
 (*   UpdRefresh         Update: refreshMempoolTxs under the pool lock                        *)
+(*   UpdLate            only with CacheFirst = FALSE: the cache.Push loop after the unlock   *)
 (*   Reap(n), Flush     under the pool lock                                                  *)
 (* AtomicAppend = TRUE is the code after the repair: Push and PushBack happen under the     *)
 (* pool lock, i.e. RcvPush does both and RcvAppend does not exist.                           *)
@@ -21,6 +23,8 @@ CONSTANTS
   MaxBlk,
   PushChecked,       \* TRUE: `if !mem.cache.Push(tx) { return ErrTxInCache }` (the code); FALSE: result ignored
   AtomicAppend,      \* TRUE: cache.Push + txs.PushBack under the pool lock (code after the repair)
+  CacheFirst,        \* TRUE: Update enters the block's transactions into the dedup cache BEFORE it refreshes the list (the
+                     \* code); FALSE: afterwards, when the pool lock has been released again (UpdLate)
   KeepCommittedInCache  \* TRUE: Update records the block's transactions in the dedup cache and they stay there
                         \* (code after the repair); FALSE: committed transactions are REMOVED from the cache
 
@@ -32,7 +36,7 @@ view == <<txs, cache, pc, cur, upd, committed, forgot>>
 
 SeqSet(s) == {s[i] : i \in 1..Len(s)}
 NoTx == "-"
-NoUpd == [on |-> FALSE, B |-> {}]
+NoUpd == [on |-> FALSE, B |-> {}, late |-> FALSE]
 Init == /\ txs = <<>> /\ cache = {} /\ committed = {} /\ forgot = {}
         /\ pc = [p \in Subm |-> "idle"] /\ cur = [p \in Subm |-> NoTx] /\ upd = NoUpd
         /\ res = [op |-> "init"]
@@ -69,20 +73,27 @@ Reap(n) == /\ res' = [op |-> "Reap", n |-> n] /\ UNCHANGED <<txs, cache, pc, cur
 
 UpdCache(B) ==
   /\ ~upd.on
-  /\ upd' = [on |-> TRUE, B |-> B]
-  /\ cache' = IF KeepCommittedInCache THEN cache \cup B ELSE cache
+  /\ upd' = [on |-> TRUE, B |-> B, late |-> FALSE]
+  /\ cache' = IF KeepCommittedInCache /\ CacheFirst THEN cache \cup B ELSE cache
   /\ committed' = committed \cup B
   /\ forgot' = forgot \ B
   /\ res' = [op |-> "UpdCache", B |-> B]
   /\ UNCHANGED <<txs, pc, cur>>
 
 UpdRefresh ==
-  /\ upd.on
+  /\ upd.on /\ ~upd.late
   /\ txs' = SelectSeq(txs, LAMBDA x : x \notin upd.B)
   /\ cache' = IF KeepCommittedInCache THEN cache ELSE cache \ (upd.B \cap SeqSet(txs))
-  /\ upd' = NoUpd
+  /\ upd' = IF CacheFirst THEN NoUpd ELSE [upd EXCEPT !.late = TRUE]
   /\ res' = [op |-> "UpdRefresh"]
   /\ UNCHANGED <<pc, cur, committed, forgot>>
+
+UpdLate ==
+  /\ upd.on /\ upd.late
+  /\ cache' = IF KeepCommittedInCache THEN cache \cup upd.B ELSE cache
+  /\ upd' = NoUpd
+  /\ res' = [op |-> "UpdLate"]
+  /\ UNCHANGED <<txs, pc, cur, committed, forgot>>
 
 Flush == /\ txs' = <<>> /\ cache' = {} /\ forgot' = committed /\ res' = [op |-> "Flush"]
          /\ UNCHANGED <<pc, cur, upd, committed>>
@@ -94,6 +105,7 @@ Next == \/ \E p \in Subm, x \in Txs, r \in {"pass", "exist", "full"} : RcvCheck(
         \/ \E n \in {1, 2, -1} : Reap(n)
         \/ \E B \in Blocks : UpdCache(B)
         \/ UpdRefresh
+        \/ UpdLate
         \/ Flush
 Spec == Init /\ [][Next]_vars
 
